@@ -430,7 +430,9 @@ class OneIterMixin:
                 rec.bodies.append(out)
                 if out.kind in ('return', 'raise'):
                     res.append(out)
-                after_effects.append(out.state.effects)
+                    continue
+                if getattr(self, 'body_ok', None) is None or self.body_ok(out):
+                    after_effects.append(out.state.effects)
         self.loop_records.append(rec)
         # state after the loop
         s_out = s0.copy()
